@@ -38,6 +38,13 @@ PARTIAL = ''
 JOBS = {'quick': 4, 'thorough': 16}
 
 
+# headers that may accompany a body; none of them changes what Content-Length declares
+EXTRA_HEADERS = [('Transfer-Encoding', 'chunked'), ('Transfer-Encoding', 'identity'), ('Transfer-Encoding', 'gzip, chunked'), ('TE', 'trailers'), ('Expect', '100-continue'),
+                 ('Content-Type', 'application/json'), ('Content-Type', 'multipart/form-data; boundary=x'), ('Content-Encoding', 'gzip'), ('Connection', 'close'),
+                 ('Connection', 'keep-alive, Upgrade'), ('Upgrade', 'websocket'), ('Trailer', 'Expires'), ('Content-Range', 'bytes 0-4/5'), ('X-Content-Length', '999999'),
+                 ('Content-MD5', 'Q2hlY2sgSW50ZWdyaXR5IQ=='), ('Range', 'bytes=0-1')]
+
+
 def run(ctx):
     _wsgi(ctx)
     _asgi(ctx)
@@ -79,7 +86,19 @@ def _wsgi(ctx):
         L = len(data)
         raw = Raw(data, shorts)
         if via_req:
-            env = ft.create_environ(method='POST', path='/', headers={'Content-Length': str(cl)})
+            # through the request object: any accompanying headers (they never widen the bound), and Content-Length values that declare
+            # no usable length (negative, not a number): those declare no body - nothing is returned and the server stream is never asked
+            hdrs = {'Content-Length': str(cl)}
+            if rnd.random() < 0.12:
+                hdrs['Content-Length'] = rnd.choice(['-5', '-1', '-0x5', 'abc', '1.5', '5;q=1', '5, 5', '0x10', '-' + str(max(cl, 1)), '--5', '1e3'])
+                cl = 0
+                ctx.count('wsgi_content_length_unusable')
+            if rnd.random() < 0.4:
+                for hn, hv in rnd.sample(EXTRA_HEADERS, rnd.randint(1, 3)):
+                    hdrs[hn] = hv
+                ctx.count('wsgi_accompanying_headers')
+            env = ft.create_environ(method=rnd.choice(['POST', 'PUT', 'PATCH', 'GET', 'DELETE']), path='/', headers=hdrs)
+            env['CONTENT_LENGTH'] = hdrs['Content-Length']          # (verbatim: create_environ may normalise)
             env['wsgi.input'] = raw
             s = falcon.Request(env).bounded_stream
         else:
@@ -217,7 +236,12 @@ def _asgi(ctx):
             raise _WouldBlock()     # the server has nothing more to deliver: the stream would wait forever (deterministic, no timeout)
         if via_req:
             hdrs = {} if cl is None else {'Content-Length': str(cl)}
-            scope = ft.create_scope(method='POST', path='/', headers=hdrs)
+            if rnd.random() < 0.4:
+                for hn, hv in rnd.sample(EXTRA_HEADERS, rnd.randint(1, 3)):
+                    hdrs[hn] = hv
+                ctx.count('asgi_accompanying_headers')
+            scope = ft.create_scope(method=rnd.choice(['POST', 'PUT', 'PATCH', 'GET', 'DELETE']), path='/', headers=hdrs)
+            scope['headers'] = [tuple(h) for h in scope['headers']]
             if cl is None:
                 scope['headers'] = [h for h in scope['headers'] if h[0] != b'content-length']
             s = falcon.asgi.Request(scope, receive, first_event=first).stream
